@@ -350,19 +350,20 @@ MRedRet(w) ==                \* store_impl.rs:335-351: thread the state, collect
 MRedEnd(w) ==                \* store_impl.rs:356
     Goto([w EXCEPT !.lk["reds"] = "-", !.m.reduced = @ + 1, !.h.red = Append(@, L(w).a)], "write")
 
-MWrite(w) ==                 \* store_impl.rs:157 (unconditional), then do_effect l.374
-    AddNote(Goto([w EXCEPT !.state = L(w).st, !.m.effIssued = @ + Len(L(w).effs),
-                          !.h.after[L(w).a] = L(w).st], "mwe.check"),
-            N("wrote", 0, L(w).st))
+MWrite(w) ==                 \* store_impl.rs:157: the state is written back whatever the answer was
+    Park([w EXCEPT !.state = L(w).st, !.h.after[L(w).a] = L(w).st], "wrote", "loop.wrote", [st |-> L(w).st])
 
-RECURSIVE SubmitAll(_, _)
-SubmitAll(w, effs) ==        \* store_impl.rs:408-429
-    IF effs = <<>> THEN w
-    ELSE LET e == Head(effs)
-             w1 == IF e.k = "act" THEN [w EXCEPT !.h.follow = @ \cup {<<L(w).a, e.a>>}] ELSE w IN
-         SubmitAll(SubmitFrom(w1, e.k, e.a, L(w).a), Tail(effs))
+MWrote(w) ==                 \* do_effect, store_impl.rs:374
+    Goto([w EXCEPT !.m.effIssued = @ + Len(L(w).effs)], "mwe.check")
 
-MEffSubmit(w) == Goto(SubmitAll(w, L(w).effs), "ntf.begin")
+MEffNext(w) ==               \* store_impl.rs:408: one park point before each submission
+    IF L(w).effs = <<>> THEN Goto(w, "ntf.begin")
+    ELSE Park(w, "eff.spawn", "eff.spawn", [n |-> Len(L(w).effs)])
+
+MEffSpawn(w) ==              \* store_impl.rs:409-428: submit the first remaining effect
+    LET e == Head(L(w).effs)
+        w1 == IF e.k = "act" THEN [w EXCEPT !.h.follow = @ \cup {<<L(w).a, e.a>>}] ELSE w IN
+    Goto([SubmitFrom(w1, e.k, e.a, L(w).a) EXCEPT !.loc[w.t].effs = Tail(@)], "eff.submit")
 
 MNtfBegin(w) ==              \* store_impl.rs:170 `if need_dispatch`, l.443
     IF L(w).needD THEN Goto([w EXCEPT !.m.notified = @ + 1], "mwd.check")
@@ -396,17 +397,22 @@ MNtfCall(w) ==               \* store_impl.rs:479-481
                                     !.h.lateBad = @ \cup bad],
                           "ntf.ret", "cb", Cb(w, "change", s, <<>>, L(w).a, <<>>) @@ [val |-> v])
                 ELSE Goto([w EXCEPT !.loc[w.t].k = k + 1], "ntf.call")
-           [] SubKind[s] = "chan" ->      \* store_impl.rs:723-733: lock tx, forward if still there
-                IF w.chan[s].open
-                THEN StartSend([w EXCEPT !.lk[CtxLock(s)] = w.t, !.h.fwd[s] = Append(@, item)], s, item, "fwd")
-                ELSE Goto([w EXCEPT !.loc[w.t].k = k + 1], "ntf.call")
+           [] SubKind[s] = "chan" ->      \* ChanneledSubscriber::on_notify, store_impl.rs:723
+                Park(w, "chfwd", "chfwd.begin", [ch |-> s])
            [] SubKind[s] = "iter" ->      \* iterator.rs:18-28
                 StartSend([w EXCEPT !.h.fwd[s] = Append(@, item)], s, item, "itn")
+
+MChFwd(w) ==                 \* store_impl.rs:724-733: lock the subscriber's tx, forward if it is still there
+    LET s == L(w).snap[L(w).k]  item == SubItem(L(w).st, L(w).a) IN
+    IF w.chan[s].open
+    THEN StartSend([w EXCEPT !.lk[CtxLock(s)] = w.t, !.h.fwd[s] = Append(@, item)], s, item, "fwd")
+    ELSE Goto([w EXCEPT !.loc[w.t].k = @ + 1], "ntf.call")
 
 -----------------------------------------------------------------------------
 (* Continuations after send.end (pc "sent"), by L.ret                        *)
 
-DispResult(w) == IF L(w).via = "impl" THEN "Ok" ELSE IF L(w).sok THEN "Ok" ELSE "Err"
+\* Store::dispatch delegates to StoreImpl::dispatch, which maps every send error to Ok
+DispResult(w) == IF L(w).via \in {"impl", "store"} THEN "Ok" ELSE IF L(w).sok THEN "Ok" ELSE "Err"
 
 FinishTask(w, panicked) ==
     LET tid == L(w).tid IN
@@ -437,13 +443,15 @@ MClose(w) ==                 \* store_impl.rs:495-511 (guard: dispatch_tx lock f
     THEN StartSend([w EXCEPT !.chan["D"].open = FALSE, !.lk["tx"] = w.t], "D", EXIT, "close")
     ELSE Goto(w, "closed")
 
-MClosed(w) ==
+MClosed(w) ==                \* close() has returned
     IF CurOp(w).op = "close" THEN OpEnd(w, "ok")
-    ELSE                     \* stop / drop_store, store_impl.rs:519-527
-      IF w.pool = "present"
-      THEN Park(AddNote([w EXCEPT !.pool = "taken", !.loc[w.t].got = TRUE], N("took", 1, <<>>)),
-                "join", "stop.join", 0)
-      ELSE OpEnd(AddNote(w, N("took", 0, <<>>)), "ok")
+    ELSE Park(w, "stop.pool", "stop.pool", 0)
+
+MStopPool(w) ==              \* stop / drop_store, store_impl.rs:519-527: take the pool
+    IF w.pool = "present"
+    THEN Park(AddNote([w EXCEPT !.pool = "taken", !.loc[w.t].got = TRUE], N("took", 1, <<>>)),
+              "join", "stop.join", 0)
+    ELSE OpEnd(AddNote(w, N("took", 0, <<>>)), "ok")
 
 MUnsubLocked(w, s, cont) ==  \* store_impl.rs:231-238, the subscribers lock is held by w.t
     IF InSeq(w.subs, s)
@@ -459,7 +467,7 @@ MIdle(w) ==
             THEN StartSend([w1 EXCEPT !.lk["tx"] = t, !.h.sawOpen = @ \cup {o.a},
                                       !.h.accBeforeStop = IF w.h.stopBegun THEN @ ELSE @ \cup {o.a}],
                            "D", o.a, "disp")
-            ELSE OpEnd([w1 EXCEPT !.m.errors = IF o.via = "impl" THEN @ + 1 ELSE @,
+            ELSE OpEnd([w1 EXCEPT !.m.errors = IF o.via \in {"impl", "store"} THEN @ + 1 ELSE @,
                                   !.h.ret = @ \cup {o.a}, !.h.res[o.a] = "Err"], "Err")
       [] o.op \in {"close", "stop", "drop_store"} ->
             MClose([w EXCEPT !.loc[t].got = FALSE,
@@ -572,6 +580,7 @@ Micro(w) ==
       [] p = "spop"      -> MTry2(w)
       [] p = "sent"      -> MSent(w)
       [] p = "closed"    -> MClosed(w)
+      [] p = "stop.pool" -> MStopPool(w)
       [] p = "join"      -> MJoin(w)
       [] p = "iter.end"  -> MIterEnd(w)
       [] p = "uns.done"  -> MUnsDone(w)
@@ -595,11 +604,14 @@ Micro(w) ==
       [] p = "red.ret"   -> MRedRet(w)
       [] p = "red.end"   -> MRedEnd(w)
       [] p = "write"     -> MWrite(w)
-      [] p = "eff.submit" -> MEffSubmit(w)
+      [] p = "wrote"     -> MWrote(w)
+      [] p = "eff.submit" -> MEffNext(w)
+      [] p = "eff.spawn" -> MEffSpawn(w)
       [] p = "ntf.begin" -> MNtfBegin(w)
       [] p = "ntf.snapq" -> MNtfSnapQ(w)
       [] p = "snap"      -> MSnap(w)
       [] p = "ntf.call"  -> MNtfCall(w)
+      [] p = "chfwd"     -> MChFwd(w)
       [] p = "ntf.ret"   -> Goto([w EXCEPT !.loc[w.t].k = @ + 1], "ntf.call")
       [] p = "done"      -> Park(w, "recv", "loop.wait", 0)          \* store_impl.rs:181
       [] p = "clear"     -> Goto([w EXCEPT !.lk["subs"] = w.t, !.loc[w.t].k = 1], "clr.call")  \* l.264
@@ -646,6 +658,7 @@ CanLeave(t) ==
       [] p = "chjoin" -> pc[ChName(l.us)] = "exited"
       [] p = "recv" -> chan["D"].q # <<>> \/ ~chan["D"].alive
       [] p = "snap" -> lk["subs"] = "-"
+      [] p = "chfwd" -> lk[CtxLock(l.snap[l.k])] = "-"
       [] p = "clear" -> lk["subs"] = "-"
       [] p = "w.start" -> tasks[l.tid].kind = "act" => lk["tx"] = "-"
       [] p = "w.cb" -> tasks[l.tid].kind = "thunk" => lk["tx"] = "-"
